@@ -18,6 +18,18 @@ Proof.
   intros ? [].
 Qed.
 
+Lemma while_loop_post3 {S} (I : S -> Prop) (m : S -> Z) (Q : S -> Prop) PR (body : S -> step S) :
+  forall fuel s, I s -> 0 <= m s < Z.of_nat fuel ->
+  (forall t, I t -> 0 <= m t -> post3 (body t) (fun t' => I t' /\ 0 <= m t' < m t) Q PR) ->
+  post3 (while_loop fuel body s) Q (fun _ => False) PR.
+Proof.
+  induction fuel as [|f IH]; intros s Hi Hm Hb.
+  - simpl in Hm; lia.
+  - simpl. assert (Hs := Hb s Hi ltac:(lia)).
+    destruct (body s) as [s'|s'|c s'|e]; simpl in Hs |- *; auto.
+    destruct Hs as [Hi' Hm']. apply IH; auto. lia.
+Qed.
+
 (* ================================================================== *)
 (* c_upstream *)
 
@@ -230,12 +242,12 @@ Lemma pigeon (f : nat -> Z) (j : nat) (n : Z) :
   Z.of_nat j <= n.
 Proof.
   intros Hn Hr Hinj.
-  set (l := map (fun k => Z.to_nat (f k)) (seq 0 j)).
+  set (l := map (fun k => Z.to_nat (f k)) (List.seq 0 j)).
   assert (Hnd : NoDup l).
   { apply NoDup_map_inj_on; [apply seq_NoDup|].
     intros x y Hx Hy E. apply in_seq in Hx. apply in_seq in Hy.
     apply Hinj; try lia. assert (Rx := Hr x ltac:(lia)). assert (Ry := Hr y ltac:(lia)). lia. }
-  assert (Hincl : incl l (seq 0 (Z.to_nat n))).
+  assert (Hincl : incl l (List.seq 0 (Z.to_nat n))).
   { intros x Hx. apply in_map_iff in Hx. destruct Hx as (k & Ek & Hk). apply in_seq in Hk.
     apply in_seq. assert (R := Hr k ltac:(lia)). lia. }
   assert (Hlen := NoDup_incl_length Hnd Hincl).
@@ -311,13 +323,15 @@ Proof.
                  (fun _ _ => True)); [lia|cbn; repeat split; auto; intros; lia|].
         intros k found Hk (F1 & F2 & F3). destruct found as [fnd s']. cbn [fst snd] in *. subst s' fnd.
         acc3. destruct (_ =? c) eqn:E1; zb.
-        - acc3. unfold post3. cbn [fst snd is_j is_cells is_w]. repeat split; auto.
-          unfold is_inv; cbn [is_j is_cells is_w]. rewrite Zlen_upd. repeat split; auto; lia.
+        - acc3. unfold post3, is_inv. cbn [fst snd is_j is_cells is_w]. rewrite Zlen_upd.
+          split; [reflexivity|]. split; [|split; reflexivity].
+          split; [auto|]. split; [auto|]. split; [lia|]. split; auto.
         - unfold post3. cbn [fst snd]. repeat split; auto.
           intros k' Hk'. destruct (Z.eq_dec k' k) as [->|Hne]; [auto|apply F3; lia]. }
       + cbn beta. intros [fnd s'] [(F1 & F2 & F3)|(F1 & F2 & F3 & F4)]; cbn [fst snd] in *.
-        * subst. repeat split; auto. unfold is_inv; repeat split; auto.
-        * repeat split; auto. intros; congruence.
+        * subst. split; [|split; [reflexivity|split; [reflexivity|auto]]].
+          unfold is_inv. split; [auto|split; [auto|split; [lia|split; auto]]].
+        * split; [auto|split; [auto|split; [auto|intros; congruence]]].
       + intros ? [].
       + auto.
     - intros [fnd s'] (J1 & J2 & J3 & J4). cbn [fst snd] in *.
@@ -338,7 +352,7 @@ Proof.
           + exfalso. rewrite J3, J2 in *. apply (J4 (Z.of_nat k2)); [lia|]. now rewrite Nat2Z.id.
           + lia. }
       acc3. acc3. unfold post3. unfold is_inv; cbn [is_j is_cells is_w]. rewrite !Zlen_upd.
-      repeat split; auto; try lia.
+      split; [auto|]. split; [auto|]. split; [lia|]. split.
       + intros k Hk. destruct (Z.eq_dec k (is_j s')) as [->|Hne].
         * rewrite nth_upd_same by (unfold Zlen in K1; lia). auto.
         * rewrite nth_upd_other by lia. apply K4; lia.
@@ -360,3 +374,113 @@ Lemma intersect_safe_RN : forall nrows ncols xll yll csz nval xy npoints idxcell
   Zlen idxcells = nrows * ncols -> Zlen weights = nrows * ncols ->
   safe (intersect RN true nrows ncols xll yll csz nval xy npoints idxcells weights).
 Proof. exact (intersect_safe RN RN_trunc_in_range). Qed.
+
+(* ================================================================== *)
+(* c_delineate_area: the three buffers have the length nval the caller chose (any nval);
+   every store is preceded by the "buffer full" tests, and the walk ends within nval+1
+   layers because every layer but the last stores at least one cell. *)
+
+Lemma da_isinlet_post ninlets idxinlets idx :
+  Zlen idxinlets = ninlets ->
+  post3 (da_isinlet ninlets idxinlets idx) (fun _ => True) (fun _ => False) (fun _ _ => False).
+Proof.
+  intros Hl. unfold da_isinlet. apply post3_seq.
+  eapply post3_weaken.
+  { apply (forZ_post3 (fun _ (_ : bool) => True) (fun _ => True) (fun _ _ => False)); auto.
+    - rewrite <- Hl. apply Zlen_nonneg.
+    - intros m f Hm _. acc3. destruct (_ =? idx); cbn; auto. }
+  all: fin3. intros; exact I.
+Qed.
+
+Definition da_lens (nval : Z) (s : dast) : Prop :=
+  Zlen (da_area s) = nval /\ Zlen (da_b1 s) = nval /\ Zlen (da_b2 s) = nval.
+
+Lemma da_layer_step_post nrows ncols code flowdir idxoutlet ninlets idxinlets nval s :
+  0 <= nrows -> 0 <= ncols -> nrows * ncols <= MAX64 ->
+  Zlen code = 9 -> Zlen flowdir = nrows * ncols -> Zlen idxinlets = ninlets -> 1 <= nval ->
+  da_lens nval s -> 0 <= da_i s <= nval - 1 -> 0 <= da_nb2 s <= nval ->
+  post3 (da_layer_step nrows ncols code flowdir idxoutlet ninlets idxinlets nval s)
+        (fun s' => da_lens nval s' /\ da_i s < da_i s' <= nval - 1 /\ 0 <= da_nb2 s' <= nval)
+        (fun _ => False) (fun _ _ => True).
+Proof.
+  intros Hr Hc Hg Hcd Hfd Hin Hnv (L1 & L2 & L3) Hi Hnb. unfold da_layer_step.
+  apply post3_seq. eapply post3_weaken.
+  { (* swap *)
+    apply (forZ_inv3 (fun t => da_lens nval t /\ da_i t = da_i s /\ da_nb2 t = da_nb2 s /\
+                               da_layer t = da_layer s) (fun _ _ => True)).
+    { unfold da_lens; auto 10. }
+    intros l t Hl ((M1 & M2 & M3) & M4 & M5 & M6). acc3. acc3.
+    unfold post3, da_lens; cbn [da_area da_b1 da_b2 da_i da_nb2 da_layer]. rewrite Zlen_upd. auto 10. }
+  2, 3: fin3.
+  cbn beta. intros t ((M1 & M2 & M3) & M4 & M5 & M6).
+  apply post3_seq.
+  set (i0 := da_i s) in *.
+  pose (J := fun u : dast => da_lens nval u /\ 0 <= da_i u <= nval - 1 /\ 0 <= da_nb2 u <= nval - 1 /\
+                             da_i u = i0 + da_nb2 u /\ da_nb1 u = da_nb2 s /\ da_layer u = da_layer s).
+  eapply post3_weaken.
+  { apply (forZ_inv3 J (fun _ _ => True)).
+    { unfold J, da_lens; cbn [da_area da_b1 da_b2 da_i da_nb1 da_nb2 da_layer].
+      rewrite M4, M5, M6. repeat split; auto; lia. }
+    cbn [da_nb1]. rewrite M5.
+    intros l u Hl Ju. destruct Ju as ((N1 & N2 & N3) & N4 & N5 & N6 & N7 & N8).
+    acc3. set (cell := nth (Z.to_nat l) (da_b1 u) 0).
+    eapply post3_call_gen with (P := fun _ idxup => Zlen idxup = 9).
+    { eapply post3_weaken.
+      - apply (upstream_post nrows ncols code flowdir 1 [cell]); auto;
+          try reflexivity; unfold UPSTREAM_STRIDE, IDXUP_SIZE; rewrite Zlen_repeat; reflexivity.
+      - intros ? [].
+      - intros ? [].
+      - cbn beta. unfold UPSTREAM_STRIDE. intros; lia. }
+    intros _ idxup Hup.
+    apply (forZ_inv3b J (fun _ _ => True)).
+    { unfold J, da_lens; auto 12. }
+    intros k v Hk Jv. destruct Jv as ((P1 & P2 & P3) & P4 & P5 & P6 & P7 & P8).
+    acc3. destruct (0 <=? _); [|unfold post3, J, da_lens; auto 12].
+    eapply post3_call_next; [apply da_isinlet_post; auto|].
+    intros isin _. destruct isin; [unfold post3, J, da_lens; auto 12|].
+    destruct (da_i v =? nval - 1) eqn:E1; zb; [exact I|].
+    acc3. acc3.
+    destruct (da_nb2 v =? nval - 1) eqn:E2; zb; [exact I|].
+    unfold post3, J, da_lens; cbn [da_area da_b1 da_b2 da_i da_nb1 da_nb2 da_layer].
+    rewrite !Zlen_upd. repeat split; auto; lia. }
+  2, 3: fin3.
+  cbn beta. intros u ((N1 & N2 & N3) & N4 & N5 & N6 & N7 & N8).
+  destruct (da_nb2 u =? 0) eqn:E0; zb; [exact I|].
+  apply post3_seq.
+  destruct (da_layer u =? 0).
+  - destruct (da_i u =? nval - 1) eqn:E1; zb; [exact I|].
+    acc3. unfold post3, da_lens; cbn [da_area da_b1 da_b2 da_i da_nb1 da_nb2 da_layer].
+    rewrite Zlen_upd. repeat split; auto; lia.
+  - unfold post3, da_lens; cbn [da_area da_b1 da_b2 da_i da_nb1 da_nb2 da_layer].
+    repeat split; auto; lia.
+Qed.
+
+Lemma delineate_area_safe : forall nrows ncols code flowdir idxoutlet ninlets idxinlets nval area b1 b2,
+  0 <= nrows -> 0 <= ncols -> nrows * ncols <= MAX64 ->
+  Zlen code = 9 -> Zlen flowdir = nrows * ncols -> Zlen idxinlets = ninlets ->
+  Zlen area = nval -> Zlen b1 = nval -> Zlen b2 = nval ->
+  safe (delineate_area nrows ncols code flowdir idxoutlet ninlets idxinlets nval area b1 b2).
+Proof.
+  intros nrows ncols code flowdir idxoutlet ninlets idxinlets nval area b1 b2
+         Hr Hc Hg Hcd Hfd Hin Ha H1 H2.
+  unfold delineate_area.
+  destruct (nval <? 1) eqn:E; zb; [exact I|].
+  rewrite chk64_ok' by (unfold MAX64 in *; nia). cbn [bindr].
+  destruct ((idxoutlet <? 0) || (nrows * ncols - 1 <? idxoutlet)); [exact I|].
+  apply (post3_safe _ (fun _ => True) (fun _ => True) (fun _ _ => True)).
+  apply post3_seq. eapply post3_weaken.
+  { apply (forZ_inv3 (fun _ : dast => True) (fun _ _ => True)); auto.
+    intros m u Hm _. acc3. destruct (_ || _); cbn; auto. }
+  2, 3: fin3.
+  cbn beta. intros _ _. acc3. apply post3_finish.
+  eapply post3_weaken.
+  { apply (while_loop_post3
+             (fun s => da_lens nval s /\ 0 <= da_i s <= nval - 1 /\ 0 <= da_nb2 s <= nval)
+             (fun s => nval - da_i s) (fun _ => False) (fun _ _ => True)).
+    - unfold da_lens; cbn. rewrite Zlen_upd. repeat split; auto; lia.
+    - cbn. lia.
+    - intros s (L & I1 & I2) Hm.
+      eapply post3_weaken; [apply da_layer_step_post; auto| | |]; fin3.
+      cbn beta. intros s' (L' & I1' & I2'). split; [split; [auto|split; lia]|lia]. }
+  all: fin3.
+Qed.
